@@ -84,11 +84,23 @@ OptCase(k) ==
   IN [ol |-> ol, h |-> WithOpts([BaseHdr(IF s % 2 = 0 THEN 4 ELSE 6) EXCEPT !.flags = IF fl = 0 THEN SYN ELSE SYN + ACK, !.ack = IF fl = 0 THEN Zero4 ELSE NZ4,
                                                                               !.win = 8192 + s], OptArea(ol))]
 
+\* ---- fopt: every flag byte x every single option of the pool (x every pair in thorough) x IPv4/IPv6:
+\* the interactions between flags and option contents (ts2+ on SYN only, opt+ ...)
+NFseq == IF MaxOpts >= 4 THEN NP + NP * NP ELSE NP
+FoptCase(k) ==
+  LET f == k % 256  r == k \div 256
+      s == r % NFseq   v == IF (r \div NFseq) % 2 = 0 THEN 4 ELSE 6
+      os == IF s < NP THEN <<Pool[s + 1]>> ELSE <<Pool[((s - NP) \div NP) + 1], Pool[((s - NP) % NP) + 1]>>
+      ol == Padded(os, 2)
+  IN [ol |-> ol, h |-> WithOpts([BaseHdr(v) EXCEPT !.flags = f, !.ack = IF HasFlag(f, ACK) THEN NZ4 ELSE Zero4], OptArea(ol))]
+NFopt == 256 * NFseq * 2
+
 CaseOf(k) == CASE Fam = "hdr4" -> [link |-> "eth", h |-> Hdr4(k), ol |-> StdOpts]
                [] Fam = "hdr6" -> [link |-> "eth", h |-> Hdr6(k), ol |-> StdOpts]
                [] Fam = "ttl"  -> [link |-> TtlCase(k).link, h |-> TtlCase(k).h, ol |-> StdOpts]
                [] Fam = "opt"  -> [link |-> "eth", h |-> OptCase(k).h, ol |-> OptCase(k).ol]
-NOf == CASE Fam = "hdr4" -> NHdr4 [] Fam = "hdr6" -> NHdr6 [] Fam = "ttl" -> NTtl [] Fam = "opt" -> NOpt
+               [] Fam = "fopt" -> [link |-> "eth", h |-> FoptCase(k).h, ol |-> FoptCase(k).ol]
+NOf == CASE Fam = "hdr4" -> NHdr4 [] Fam = "hdr6" -> NHdr6 [] Fam = "ttl" -> NTtl [] Fam = "opt" -> NOpt [] Fam = "fopt" -> NFopt
 
 DevSets == SUBSET AllD03 \ {{}}
 Emit(k) ==
